@@ -441,12 +441,13 @@ func runH1(t *testing.T, prog *hx.Program, dec *simrt.Decider, verbose bool, bod
 	defer os.RemoveAll(dir)
 	h := &h1{t: t, oc: oc, prog: prog, dir: dir, hw: -1, hwDone: -1, ever: map[int64]string{}}
 	cfg := simrt.Config{
-		StickyPct: int(prog.Param("sticky", 50)),
-		LockYield: int(prog.Param("lockyield", 100)),
-		MaxSteps:  int(prog.Param("maxsteps", 200000)),
-		Horizon:   time.Duration(prog.Param("horizon_s", 36000)) * time.Second,
-		Verbose:   verbose,
-		Profile:   os.Getenv("VERIF_PROFILE") != "",
+		StickyPct:  int(prog.Param("sticky", 50)),
+		LockYield:  int(prog.Param("lockyield", 100)),
+		MaxSteps:   int(prog.Param("maxsteps", 200000)),
+		Horizon:    time.Duration(prog.Param("horizon_s", 36000)) * time.Second,
+		Verbose:    verbose,
+		TraceSteps: verbose && os.Getenv("VERIF_TRACE_STEPS") != "",
+		Profile:    os.Getenv("VERIF_PROFILE") != "",
 	}
 	var s *simrt.Sim
 	problem := simrt.RunBubble(t, func() {
